@@ -25,6 +25,7 @@ PROPS = {
     },
     'C06': {
         'modules': ['contracts.C06_equivalence', 'contracts.C06_differential'],
+        'deps': [{'module': 'contracts.C05_response', 'prop': 'C05', 'filters': ['wsgi_tail', 'asgi_tail', 'asgi_sse']}],
         'level': 'proof',
         'level_text': 'Relational (product) contract of the two request classes: one abstract request is presented as a PEP 3333 environ and as an ASGI HTTP '
                       'scope (header list folded by the rule restated in the contract), the REAL falcon.Request.__init__ and falcon.asgi.Request.__init__ run on '
